@@ -2,7 +2,8 @@
 # Runs every hand-written and seeded patch against the check of its property and
 # reports CAUGHT / MISSED. usage: regress_mutants.sh [secs-per-patch]
 SECS="${1:-12}"
-cd /verif
+VROOT="$(cd "$(dirname "${BASH_SOURCE[0]}")/.." && pwd)"
+cd $VROOT
 fail=0
 run() { # patch id
 	out=$(WIDTH=160 tools/try_mutant.sh "$1" "$2" "$SECS")
@@ -10,17 +11,17 @@ run() { # patch id
 }
 for p in mutants/*.patch; do
 	id=$(basename $p | cut -c1-3 | tr a-z A-Z)
-	run /verif/$p $id
+	run $VROOT/$p $id
 done
 for d in seeded/*/; do
 	id=$(python3 -c "import json,sys; m=json.load(open('$d/meta.json')); print(m.get('check', m['property']))")
 	if grep -q '"caught_by": "NOT CAUGHT' $d/meta.json; then echo "SKIPPED $id  $d (recorded as outside the property)"; continue; fi
-	run /verif/${d}patch.diff $id
+	run $VROOT/${d}patch.diff $id
 done
 # refactorings that keep the property: must stay quiet
 for p in benign/*.patch; do
 	id=$(basename $p | cut -c1-3 | tr a-z A-Z)
-	out=$(WIDTH=160 tools/try_mutant.sh /verif/$p $id "$SECS")
+	out=$(WIDTH=160 tools/try_mutant.sh $VROOT/$p $id "$SECS")
 	if echo "$out" | grep -q "^OK"; then echo "QUIET   $id  $p"; else echo "ALARM   $id  $p"; echo "$out" | sed 's/^/        /'; fail=1; fi
 done
 exit $fail
